@@ -1,6 +1,8 @@
 import Rie.Model.Env
 
 /-! Lemmas about the `Env` model (maps as association lists, layer invariants, the `'='` cut). -/
+set_option linter.unusedSimpArgs false
+
 namespace Rie.Env
 open Rie.Gen.EnvKeys
 
